@@ -213,10 +213,27 @@ func c04Positive(k *fw.K, cfg c04Cfg) {
 		ps.GrindPKDHX = 1
 	case "chip-dh-y":
 		ps.GrindPKDHY = 1
+	case "nonce-32":
+		ps.NonceLen = 32
+	case "nonce-24":
+		if cfg.suite == symref.TDES {
+			ps.NonceLen = 24
+		} else {
+			ps.NonceLen = 32
+		}
 	}
 	k.Nontrivial(cfg.String() + "|" + w.pwDesc)
 	res, cam, err := pace.NewPace(w.nfc, w.doc, w.pw).DoPACE()
 	k.Count("positive_runs")
+	if ps.NonceLen != 0 && ps.NonceLen != 16 {
+		// other nonce lengths than the 128 bits of TR-03110 are informational only
+		if err == nil && res != nil && res.Success {
+			k.Count(fmt.Sprintf("informational_nonce_len_%d_ok", ps.NonceLen))
+		} else {
+			k.Count(fmt.Sprintf("informational_nonce_len_%d_failed", ps.NonceLen))
+		}
+		return
+	}
 	if ps.SharedXLeading > 0 {
 		k.Count(fmt.Sprintf("positive_shared_x_leading_zero_octets_%d", min(ps.SharedXLeading, 2)))
 	}
@@ -275,7 +292,7 @@ func c04Positive(k *fw.K, cfg c04Cfg) {
 	k.Sample("positive-"+cls, map[string]any{"config": cfg.String(), "password": w.pwDesc, "shared_secret": fmt.Sprintf("%x", ps.K)})
 }
 
-var c04DevsAll = []string{"wrong-password", "nonce-bitflip", "nonce-short", "nonce-long",
+var c04DevsAll = []string{"wrong-password", "wrong-password-other-type", "nonce-bitflip", "nonce-short", "nonce-long",
 	"mapkey-other-point", "mapkey-off-curve", "mapkey-infinity", "mapkey-echo", "mapkey-truncated", "mapkey-bitflip",
 	"kakey-other-point", "kakey-off-curve", "kakey-infinity", "kakey-echo", "kakey-truncated", "kakey-bitflip",
 	"token-bitflip", "token-swapped-roles", "token-truncated", "token-zero", "token-missing"}
@@ -444,6 +461,18 @@ func c04Negative(k *fw.K, cfg c04Cfg) {
 	if cfg.dev == "wrong-password" {
 		pw = w.wrongPw
 	}
+	if cfg.dev == "wrong-password-other-type" {
+		// a CAN where the chip was personalised for the MRZ and vice versa: the chip knows no
+		// such password (or another one) - PACE must fail closed
+		if cfg.pwKind == 4 {
+			pw = w.wrongPw
+			if p2, err := password.NewPasswordMrzi("AB1234567", "800101", "300101"); err == nil {
+				pw = p2
+			}
+		} else {
+			pw = password.NewPasswordCan(fmt.Sprintf("%06d", r.IntN(1000000)))
+		}
+	}
 	k.Nontrivial(cfg.String() + "|" + w.pwDesc)
 	k.Count("negative_" + cfg.dev)
 	res, cam, err := pace.NewPace(w.nfc, w.doc, pw).DoPACE()
@@ -577,6 +606,14 @@ func runC04(c *fw.Ctx) {
 				continue
 			}
 			pos = append(pos, cfg)
+		}
+		if gi%11 == 0 {
+			for _, nl := range []string{"nonce-32", "nonce-24"} {
+				cfg := g
+				cfg.pwKind = gi % 5
+				cfg.grind = nl
+				pos = append(pos, cfg)
+			}
 		}
 		if c.Thorough() && gi%7 == 0 {
 			cfg := g
